@@ -930,6 +930,38 @@ func genCase(t *rapid.T) Case {
 			c.Direct = rapid.IntRange(-1, 0).Draw(t, "direct")
 		}
 
+	case branch >= 87 && branch < 90: // JBIG2 halftone regions from the harness's own segment writer
+		c.Origin = "jbig2-halftone"
+		h := halftoneSpec{
+			numPats:  rapid.SampledFrom([]int{1, 2, 3, 3, 3, 4, 5, 5, 6, 7, 8, 9, 12, 15, 16, 17}).Draw(t, "numpats"),
+			patSize:  rapid.SampledFrom([]int{1, 2, 4, 8}).Draw(t, "patsize"),
+			gw:       rapid.IntRange(1, 12).Draw(t, "gw"),
+			gh:       rapid.IntRange(1, 12).Draw(t, "gh"),
+			mmr:      rapid.IntRange(0, 3).Draw(t, "mmr") != 0,
+			dictMMR:  rapid.Bool().Draw(t, "dictmmr"),
+			tmpl:     rapid.IntRange(0, 3).Draw(t, "template"),
+			combOp:   rapid.IntRange(0, 4).Draw(t, "combop"),
+			skip:     rapid.IntRange(0, 5).Draw(t, "skip") == 0,
+			defPix:   rapid.Bool().Draw(t, "defpixel"),
+			lossless: rapid.Bool().Draw(t, "lossless"),
+			seed:     rapid.Uint64().Draw(t, "hseed"),
+		}
+		var expect int
+		body, c.Tags, expect = h.build()
+		c.ExpectOut = expect
+		if rapid.IntRange(0, 4).Draw(t, "mut") == 0 {
+			c.Origin = "jbig2-halftone-mutated"
+			c.Tags, c.ExpectOut = nil, 0
+			body = mutateBody(body, rapid.Uint64().Draw(t, "mseed"), rapid.IntRange(1, 2).Draw(t, "nmut"), nil)
+		}
+		if rapid.IntRange(0, 5).Draw(t, "wrap") == 0 {
+			body = encodeWith(pdf.FilterFlate{}, body)
+			setChain([]string{"FlateDecode", "JBIG2Decode"}, nil)
+		} else {
+			setChain([]string{"JBIG2Decode"}, nil)
+			c.Direct = rapid.IntRange(-1, 0).Draw(t, "direct")
+		}
+
 	case branch < 97: // JBIG2: header dimensions, globals, mutations
 		c.Origin = "jbig2"
 		s := jb2Seeds[rapid.IntRange(0, len(jb2Seeds)-1).Draw(t, "jb2")]
@@ -1122,7 +1154,7 @@ func genCase(t *rapid.T) Case {
 	if strings.HasPrefix(c.Origin, "ccitt-bomb") && c.Mode != 0 && rapid.IntRange(0, 3).Draw(t, "drainbomb") != 0 {
 		c.Mode = 0
 	}
-	if c.ProgScans > 0 || strings.HasSuffix(c.Origin, "-over-bomb") {
+	if c.ProgScans > 0 || strings.HasSuffix(c.Origin, "-over-bomb") || c.Origin == "jbig2-halftone" {
 		c.Mode = 0
 	}
 	if c.Mode == 1 {
@@ -1529,4 +1561,166 @@ func progScansJPEG(width, height, n, kind int, dc bool) []byte {
 	}
 	w(0xff, 0xd9)
 	return b.Bytes()
+}
+
+// ---------------------------------------------------------------------------
+// JBIG2 halftone regions (own segment writer; the library's JBIG2 encoder is
+// not used)
+
+// halftoneSpec describes an embedded JBIG2 stream of three segments: page
+// information, a pattern dictionary with numPats patterns of patSize x
+// patSize pixels, and an immediate halftone region over a gw x gh grid.
+//
+// With mmr the gray-scale bitplanes are written directly (Gray-coded, most
+// significant plane first, each plane an MMR = CCITT Group 4 image produced
+// by the library's CCITTFax writer with 1 = black), so the gray value of
+// every grid cell is known: the values cycle through 0..2^bits-1, which
+// includes numPats itself and larger values whenever numPats is not a power
+// of two (and for a single pattern, where one bitplane is still read).
+// Without mmr the bitplanes are arithmetic-coded; the data are then noise
+// (the MQ decoder accepts any bytes), and the gray values are unknown.
+type halftoneSpec struct {
+	numPats, patSize, gw, gh int
+	mmr, dictMMR             bool
+	tmpl, combOp             int
+	skip, defPix, lossless   bool
+	seed                     uint64
+}
+
+func be32(v uint32) []byte { return []byte{byte(v >> 24), byte(v >> 16), byte(v >> 8), byte(v)} }
+
+func jbig2Segment(num uint32, typ byte, refs []byte, data []byte) []byte {
+	out := be32(num)
+	out = append(out, typ, byte(len(refs))<<5)
+	out = append(out, refs...)
+	out = append(out, 1) // page association
+	out = append(out, be32(uint32(len(data)))...)
+	return append(out, data...)
+}
+
+// mmrPlane encodes a bitmap (row-major, true = black) as JBIG2 MMR data.
+func mmrPlane(width, height int, px func(x, y int) bool) []byte {
+	stride := (width + 7) / 8
+	rows := make([]byte, stride*height)
+	for y := 0; y < height; y++ {
+		for x := 0; x < width; x++ {
+			if px(x, y) {
+				rows[y*stride+x/8] |= 0x80 >> uint(x%8)
+			}
+		}
+	}
+	return encodeWith(pdf.FilterCCITTFax{K: -1, Columns: width, BlackIs1: true}, rows)
+}
+
+// grayValues returns the gray value of every grid cell (row-major): the
+// values cycle through 0..2^bpp-1, later cells are partly random.
+func (h halftoneSpec) grayValues(bpp int) []int {
+	r := vt.NewRand(h.seed ^ 0x9e3779b97f4a7c15)
+	gray := make([]int, h.gw*h.gh)
+	for i := range gray {
+		gray[i] = i % (1 << bpp)
+		if i >= 1<<bpp && r.Intn(3) == 0 {
+			gray[i] = r.Intn(1 << bpp)
+		}
+	}
+	if n := len(gray); n > 2 {
+		k := r.Intn(n)
+		gray[0], gray[k] = gray[k], gray[0]
+	}
+	return gray
+}
+
+func (h halftoneSpec) build() (body []byte, tags []string, expectOut int) {
+	r := vt.NewRand(h.seed)
+	ps := h.patSize
+	w, hh := h.gw*ps, h.gh*ps
+	bpp := 0
+	for 1<<bpp < h.numPats {
+		bpp++
+	}
+	if bpp == 0 {
+		bpp = 1
+	}
+
+	// page information
+	page := append(be32(uint32(w)), be32(uint32(hh))...)
+	page = append(page, make([]byte, 8)...)
+	page = append(page, 0, 0, 0)
+	body = jbig2Segment(0, 48, nil, page)
+
+	// pattern dictionary: pattern i has its index written into its first row
+	pd := []byte{0, byte(ps), byte(ps)}
+	if h.dictMMR {
+		pd[0] = 1
+	} else {
+		pd[0] = byte(h.tmpl&3) << 1
+	}
+	pd = append(pd, be32(uint32(h.numPats-1))...)
+	if h.dictMMR {
+		pd = append(pd, mmrPlane(h.numPats*ps, ps, func(x, y int) bool {
+			i := x / ps
+			return (i+1)>>(uint(x%ps+y)%8)&1 != 0
+		})...)
+	} else {
+		pd = append(pd, r.Bytes(8+h.numPats*ps*ps/4)...)
+	}
+	body = append(body, jbig2Segment(1, 16, nil, pd)...)
+
+	// halftone region
+	reg := append(be32(uint32(w)), be32(uint32(hh))...)
+	reg = append(reg, make([]byte, 8)...) // x, y
+	reg = append(reg, byte(h.combOp&7))
+	flags := byte(h.tmpl&3)<<1 | byte(h.combOp&7)<<4
+	if h.mmr {
+		flags |= 1
+	}
+	if h.skip {
+		flags |= 8
+	}
+	if h.defPix {
+		flags |= 0x80
+	}
+	reg = append(reg, flags)
+	reg = append(reg, be32(uint32(h.gw))...)
+	reg = append(reg, be32(uint32(h.gh))...)
+	reg = append(reg, make([]byte, 8)...) // HGX, HGY
+	reg = append(reg, byte(ps), 0, 0, 0)  // HRX = ps << 8, HRY = 0
+	if h.mmr {
+		gray := h.grayValues(bpp)
+		bit := func(v, j int) bool { return j < bpp && v>>uint(j)&1 != 0 }
+		for j := bpp - 1; j >= 0; j-- {
+			j := j
+			reg = append(reg, mmrPlane(h.gw, h.gh, func(x, y int) bool {
+				v := gray[y*h.gw+x]
+				return bit(v, j) != bit(v, j+1) // Gray code
+			})...)
+		}
+		seen := map[string]bool{}
+		for _, v := range gray {
+			switch {
+			case v == h.numPats:
+				seen["halftone/gray==numpats"] = true
+			case v > h.numPats:
+				seen["halftone/gray>numpats"] = true
+			}
+		}
+		for _, k := range []string{"halftone/gray==numpats", "halftone/gray>numpats"} {
+			if seen[k] {
+				tags = append(tags, k)
+			}
+		}
+		tags = append(tags, "halftone/mmr")
+	} else {
+		reg = append(reg, r.Bytes(16+h.gw*h.gh*bpp/4)...)
+		tags = append(tags, "halftone/arith-noise")
+	}
+	if h.numPats&(h.numPats-1) != 0 {
+		tags = append(tags, "halftone/numpats-not-pow2")
+	}
+	typ := byte(22)
+	if h.lossless {
+		typ = 23
+	}
+	body = append(body, jbig2Segment(2, typ, []byte{1}, reg)...)
+	return body, tags, ((w + 7) / 8) * hh
 }
